@@ -24,6 +24,7 @@ import tempfile
 from common import err_kind, hexs, lst
 
 ROOT = "/var/tmp"
+CORPUS_IN_RUN = True     # run() replays corpus/C14 itself (with model comparison)
 SIG_RMDIR = "C14:delete_old_all:rmdir-nonempty-with-kept-files"
 
 
@@ -269,32 +270,77 @@ def damage(kind, pdir, rng):
         wr(name, ls + ls)
 
 
+def snap_path(p):
+    """everything of a Path that output() has no business changing"""
+    def r(x):
+        return "None" if x is None else repr(float(x))
+    return (p.path_number, repr(p.generated), p.status, p.maxlen, p.time_origin,
+            [(tuple(s.config), [r(o) for o in s.order], bool(s.vel_rev), r(s.vpot), r(s.ekin)) for s in p.phasepoints])
+
+
+def forced_cases():
+    """falsy-but-valid values: path number 0, cycle 0, index 0, order 0.0, energies exactly 0.0, lengths 1 and 2"""
+    def fr(i, **kw):
+        d = {"dir": "w0", "base": "e0_0_trajB.xyz", "idx": 0, "rev": False, "order": [0], "vpot": 0, "ekin": 0}
+        d.update(kw)
+        return d
+    return [
+        {"step": 0, "pn": 0, "gen": ("sh", 0, 0, 0), "frames": [fr(0)]},
+        {"step": 0, "pn": 0, "gen": ("ld", 0.0, 0, 0), "frames": [fr(0), fr(1, idx=0, rev=True)]},
+        {"step": 0, "pn": 0, "gen": "", "frames": [fr(0, vpot=None, ekin=0), fr(1, vpot=0, ekin=None, order=[0]), fr(2, idx=None, order=[0])]},
+        {"step": 1, "pn": 0, "gen": ("sh", 0, 0, 0), "frames": [fr(0, order=[0, 0, 0]), fr(1, order=[0, 0, 1], base="e0_1_trajF.xyz")]},
+        {"step": 0, "pn": 1, "gen": ("s-", 0, 0, 0), "frames": [fr(0, order=[], vpot=None, ekin=None), fr(1, order=[], vpot=None, ekin=None)]},
+        {"step": 5, "pn": 0, "gen": ("wf", 0, 0, 0), "frames": [fr(i, vpot=None, ekin=None, rev=bool(i % 2)) for i in range(3)]},
+    ]
+
+
 def part_a(ctx, tmp):
     np, PathStorage, Path, load_path, REPEX_state, System = _imports()
     rng = ctx.rng
-    n_ok = 350 if ctx.quick else 4000
+    n_ok = 300 if ctx.quick else 4000
     n_bad = 450 if ctx.quick else 5000
     cases, code, lines = [], [], []
+    ps_long = PathStorage()      # ONE storage object for every path of this run (REPEX_state.pstore is even class-level)
+    forced = forced_cases()
+    prev = None                  # (loaded path, its canonical text) of the previous case: must survive later loads
     for k in range(n_ok + n_bad):
-        case = gen_path_case(rng, big=not ctx.quick)
+        case = forced[k] if k < len(forced) else gen_path_case(rng, big=not ctx.quick)
+        if k % 7 == 3 and k >= len(forced):
+            case["pn"] = rng.choice([0, 1])
         root = os.path.join(tmp, f"a{k}")
         os.makedirs(root)
         load = os.path.join(root, "load")
         pdir = os.path.join(load, str(case["pn"]))
         acc = os.path.join(pdir, "accepted")
-        rec = {"case": case}
+        rec = {"case": case, "extra": []}
+        damaged = k >= n_ok
         try:
             p = build_path(case, root, Path, System)
+            before = snap_path(p)
             srcs = sorted({s.config[0] for s in p.phasepoints})
-            moved = PathStorage().output(case["step"], {"path": p, "dir": load})
+            moved = ps_long.output(case["step"], {"path": p, "dir": load})
+            if snap_path(p) != before:
+                rec["extra"].append(("C14:output-modifies-input-path", "PathStorage.output changed the path object it was given"))
             rec["moved_ok"] = all(not os.path.exists(s) for s in srcs) and \
                 sorted(os.listdir(acc)) == sorted({os.path.basename(s) for s in srcs}) and \
-                all(os.path.dirname(s.config[0]) == acc for s in moved.phasepoints)
+                all(os.path.dirname(s.config[0]) == acc for s in moved.phasepoints) and moved.length == p.length
             rec["files"] = {n: file_tokens(os.path.join(pdir, n)) for n in ("traj.txt", "order.txt", "energy.txt")}
             rec["acc"] = sorted(os.listdir(acc))
+            if not damaged:
+                # the same path through a FRESH storage object: byte-identical archive
+                rootf = os.path.join(root, "fresh")
+                os.makedirs(rootf)
+                pf = build_path(case, rootf, Path, System)
+                PathStorage().output(case["step"], {"path": pf, "dir": os.path.join(rootf, "load")})
+                pdf = os.path.join(rootf, "load", str(case["pn"]))
+                for n in ("traj.txt", "order.txt", "energy.txt"):
+                    if open(os.path.join(pdir, n)).read() != open(os.path.join(pdf, n)).read():
+                        rec["extra"].append(("C14:store-depends-on-object-history", f"{n} written by the long-lived PathStorage differs from a fresh one's"))
+                if sorted(os.listdir(os.path.join(pdf, "accepted"))) != rec["acc"]:
+                    rec["extra"].append(("C14:store-depends-on-object-history", "moved files differ between long-lived and fresh PathStorage"))
         except Exception as e:  # noqa: BLE001
             rec["store_err"] = ekind(e)
-        if k >= n_ok and "store_err" not in rec:
+        if damaged and "store_err" not in rec:
             rec["damage"] = DAMAGE[(k - n_ok) % len(DAMAGE)]
             damage(rec["damage"], pdir, rng)
             rec["files"] = {n: file_tokens(os.path.join(pdir, n)) for n in ("traj.txt", "order.txt", "energy.txt")}
@@ -305,9 +351,64 @@ def part_a(ctx, tmp):
             if "damage" not in rec:
                 rec["pred"] = roundtrip_predicate(case, lp, acc, root)
         except Exception as e:  # noqa: BLE001
+            lp = None
             rec["loaded"] = ekind(e)
             rec["pred"] = f"load_path raised {type(e).__name__}: {e}"
+        # ---- aliasing: an earlier loaded path is not changed by later loads / stores
+        try:
+            if prev is not None and show_loaded(prev[0], prev[2]) != prev[1]:
+                rec["extra"].append(("C14:loaded-path-aliases-buffer", "a path loaded earlier changed when another path was stored/loaded"))
+        except Exception as e:  # noqa: BLE001
+            rec["extra"].append(("C14:loaded-path-aliases-buffer", f"an earlier loaded path became unreadable: {type(e).__name__}"))
+        prev = None
+        # ---- second round trip: store the LOADED path again (same storage object), load it again
+        if lp is not None and "damage" not in rec and rec.get("pred") is None:
+            try:
+                pn2 = case["pn"] + 1000
+                case2 = {"step": case["step"] + 1, "pn": pn2, "gen": case["gen"],
+                         "frames": [dict(f, idx=0 if f["idx"] is None else f["idx"]) for f in case["frames"]]}
+                lp.path_number, lp.generated, lp.status = pn2, case["gen"], "ACC"
+                text1 = show_loaded(lp, acc)
+                b2 = snap_path(lp)
+                ps_long.output(case2["step"], {"path": lp, "dir": load})
+                if snap_path(lp) != b2 or show_loaded(lp, acc) != text1:
+                    rec["extra"].append(("C14:output-modifies-input-path", "PathStorage.output changed the (loaded) path object it was given"))
+                acc2 = os.path.join(load, str(pn2), "accepted")
+                lp2 = load_path(os.path.join(load, str(pn2)))
+                rec["loaded2"] = show_loaded(lp2, acc2)
+                rec["case2"] = case2
+                pred2 = roundtrip_predicate(case2, lp2, acc2, root)
+                if pred2 is not None:
+                    rec["extra"].append(("C14:roundtrip", "second round trip (store the loaded path, load again): " + pred2))
+                # in-place change of the second object must not reach the first
+                if lp2.length and len(lp2.phasepoints[0].order):
+                    lp2.phasepoints[0].order[0] = 12345.0
+                    if show_loaded(lp, acc) != text1:
+                        rec["extra"].append(("C14:loaded-path-aliases-buffer", "two loaded paths share an order array"))
+                prev = (lp, text1, acc)
+            except Exception as e:  # noqa: BLE001
+                rec["extra"].append(("C14:roundtrip", f"second round trip raised {type(e).__name__}: {e}"))
         cases.append(rec)
+        shutil.rmtree(root, ignore_errors=True)
+    # ---- two paths whose source files have the same basenames (different directories), one load dir
+    for k in range(12 if ctx.quick else 120):
+        ca = gen_path_case(rng)
+        cb = {"step": ca["step"] + 1, "pn": ca["pn"] + 1, "gen": ca["gen"],
+              "frames": [dict(f, dir="v" + f["dir"], order=[o + 1 for o in f["order"]]) for f in ca["frames"]]}
+        root = os.path.join(tmp, f"p{k}")
+        os.makedirs(root)
+        load = os.path.join(root, "load")
+        ctx.count(1, branch="A:same-basenames-two-paths")
+        try:
+            for c in (ca, cb):
+                ps_long.output(c["step"], {"path": build_path(c, root, Path, System), "dir": load})
+            for c in (ca, cb):
+                pd_ = os.path.join(load, str(c["pn"]))
+                pr = roundtrip_predicate(c, load_path(pd_), os.path.join(pd_, "accepted"), root)
+                if pr is not None:
+                    ctx.fail("C14:roundtrip", "two stored paths with equal basenames: " + pr, {"part": "A", "case": c, "other": ca if c is cb else cb})
+        except Exception as e:  # noqa: BLE001
+            ctx.fail("C14:roundtrip", f"two stored paths with equal basenames: {type(e).__name__}: {e}", {"part": "A", "case": ca, "other": cb})
         shutil.rmtree(root, ignore_errors=True)
     # ---- model
     if ctx._driver_ok:
@@ -319,12 +420,20 @@ def part_a(ctx, tmp):
             else:
                 lines.append(store_line(rec["case"]))
         out = ctx.driver(lines)
+        idx2 = [k for k, rec in enumerate(cases) if "case2" in rec]
+        out2 = dict(zip(idx2, ctx.driver([store_line(cases[k]["case2"]) for k in idx2]))) if idx2 else {}
     for k, rec in enumerate(cases):
         case = rec["case"]
         dmg = rec.get("damage")
         ctx.count(1, branch=("A:" + (dmg or "roundtrip")))
         nf = len({(f["dir"], f["base"]) for f in case["frames"]})
         rep = {"part": "A", "case": case, "damage": dmg}
+        for sig, what in rec["extra"]:
+            ctx.fail(sig, what, rep)
+        if ctx._driver_ok and "case2" in rec:
+            l2 = dict((x[:1], x[2:].strip()) for x in out2[k].split(" | "))["L"]
+            if l2 != rec["loaded2"]:
+                ctx.disagree({"fn": "load∘store∘load∘store", "case": rec["case2"]}, rec["loaded2"], l2)
         if dmg is None:
             if nf > 1 or any(f["rev"] for f in case["frames"]) or any(f["vpot"] is None for f in case["frames"]):
                 ctx.distinct(("A", repr(case)))
@@ -418,6 +527,7 @@ def run_history(h, mods, tmp):
         if h["delete_old"] is None:
             del out["delete_old"], out["delete_old_all"]
         st = mkstate(REPEX_state, n_ens, h["workers"], out, h["seed"])
+        st.traj_data = {}      # REPEX_state.traj_data is a class-level dict: a real run starts with it empty
         os.makedirs("w")
         ps = PathStorage()
         paths = []
@@ -435,8 +545,9 @@ def run_history(h, mods, tmp):
         init_files = {f: open(os.path.join("load", f)).read() for f in listing("load") if not f.endswith("/")}
         base = {"mc_moves": st.mc_moves, "interfaces": st.interfaces, "cap": None}
         inflight = []
-        while st.initiate():
+        while st.initiate() and len(inflight) < 8:
             inflight.append(st.prep_md_items(copy.deepcopy(base)))
+        frozen = set()    # paths queued before a restart: pn_olds is not persisted, they are never deleted
         lag = {}          # pn -> (files, number of qualifying replacements still to come)
         stored = {}       # pn -> files referenced by its traj.txt
         for pn, names in obs["init"]:
@@ -445,6 +556,9 @@ def run_history(h, mods, tmp):
         # exposed one, after all deletions of a call and just before restart.toml is rewritten
         real_write_toml = st.write_toml
         mid = {"bad": None}
+
+        def holder_call():
+            return holder["real"]()
 
         def checked_write_toml():
             try:
@@ -458,8 +572,9 @@ def run_history(h, mods, tmp):
                         break
             except FileNotFoundError:
                 pass
-            return real_write_toml()
+            return holder_call()
         st.write_toml = checked_write_toml
+        holder = {"real": real_write_toml}
         for k, step in enumerate(h["steps"]):
             acc, which, shape = step[0], step[1], step[2]
             stale_sel = step[3] if len(step) > 3 else None
@@ -567,7 +682,40 @@ def run_history(h, mods, tmp):
                             obs["fails"].append(("C14:deleted-without-delete_old", f"files of path {q} removed", where))
             if err is not None:
                 break
+            for q in sorted(frozen):
+                if not all(os.path.isfile(os.path.join("load", str(q), "accepted", a)) for a in stored[q]):
+                    obs["fails"].append(("C14:deleted-before-lag", f"files of path {q}, queued before the restart, were removed", where))
+            if len(step) > 4 and step[4] and h["workers"] == 1:
+                # ---- restart between two calls: a new REPEX_state from restart.toml and the paths on disk
+                from infretis.classes.path import load_paths_from_disk
+                with open("restart.toml", "rb") as fh:
+                    cfg = tomli.load(fh)
+                cfg["current"]["restarted_from"] = cfg["current"]["cstep"]
+                try:
+                    st = REPEX_state(cfg, minus=True)
+                    st.traj_data = {}
+                    st.initiate_ensembles()
+                    st.load_paths(load_paths_from_disk(cfg))
+                except Exception as e:  # noqa: BLE001
+                    obs["fails"].append(("C14:restart-referenced-path-lost-file",
+                                         f"restart from the restart.toml on disk failed: {type(e).__name__}: {e}", where))
+                    break
+                st.engine_occ = {"engine": [-1] * h["workers"]}
+                holder["real"] = st.write_toml
+                st.write_toml = checked_write_toml
+                base = {"mc_moves": st.mc_moves, "interfaces": st.interfaces, "cap": None}
+                inflight = []
+                while st.initiate() and len(inflight) < 8:
+                    inflight.append(st.prep_md_items(copy.deepcopy(base)))
+                frozen |= {q for q in lag if lag[q] > 0}
+                lag = {}
+                if obs.get("cut") is None:
+                    obs["cut"] = len(obs["ops"])
+                obs["restarts"] = obs.get("restarts", 0) + 1
+                continue
             inflight.append(st.prep_md_items(md))
+    except Exception as e:  # noqa: BLE001   (a harness-side surprise must not hide what was already judged)
+        obs["harness_error"] = f"{type(e).__name__}: {e}"
     finally:
         os.fsync = real_fsync
         os.chdir(cwd)
@@ -582,7 +730,7 @@ def hist_line(h, obs, variant="r"):
            lst(list(h["keep"] or [])), str(len(obs["init"]))]
     for pn, names in obs["init"]:
         out += [str(pn), lst(names)]
-    flat = [op for ops in obs["ops"] for op in ops]
+    flat = [op for ops in obs["ops"][:obs.get("cut")] for op in ops]
     out.append(str(len(flat)))
     for op in flat:
         if op[0] == "F":
@@ -598,7 +746,7 @@ def model_states(line_out, obs):
     """model state after the last op of each treat_output call (or at the error)"""
     sts = line_out.split(" | ") if line_out else []
     res, pos = [], 0
-    for ops in obs["ops"]:
+    for ops in obs["ops"][:obs.get("cut")]:
         take = sts[pos:pos + len(ops)]
         pos += len(ops)
         if not take:
@@ -617,6 +765,9 @@ def gen_histories(ctx):
     hs = []
     settings = [(d, a, k) for d in (False, True) for a in (False, True) for k in (None, (".adp",))]
     settings.append((None, None, (".adp", ".log")))     # keys absent from the config
+    settings.append((True, True, (".adp", ".log")))     # several kept extensions
+    settings.append((True, True, ()))                   # keep_traj_fnames = []
+    settings.append((True, False, (".log",)))
 
     def shape():
         out = []
@@ -626,7 +777,7 @@ def gen_histories(ctx):
         return out
     # exhaustive accept/reject patterns, small
     L = 5 if ctx.quick else 9
-    for (d, a, k) in settings:
+    for (d, a, k) in (settings[:8] if ctx.quick else settings):
         if d is None:
             continue
         for n_ens in ((2,) if ctx.quick else (2, 3)):
@@ -636,16 +787,18 @@ def gen_histories(ctx):
                 hs.append({"n_ens": n_ens, "workers": 1, "seed": 0, "delete_old": d, "delete_old_all": a, "keep": k,
                            "steps": [(bool(x), 0, [(1, [[".adp"]]), (2, [[], [".adp"]])]) for x in pat], "kind": "exhaustive"})
     # random
-    nrand = 7 if ctx.quick else 120
+    nrand = 5 if ctx.quick else 120
     for (d, a, k) in settings:
         for n_ens in (2, 3, 4, 5):
             for r in range(nrand if n_ens < 5 else max(3, nrand // 3)):
                 workers = rng.choice([1, max(1, n_ens // 2)])   # 2·W ≤ n_ens: a zero swap locks two ensembles
                 nsteps = rng.randint(n_ens + 2, 5 * n_ens + 6)
                 pacc = rng.choice([0.5, 0.8, 1.0])
+                restart_here = workers == 1 and rng.random() < 0.3
                 hs.append({"n_ens": n_ens, "workers": workers, "seed": rng.randrange(1000), "delete_old": d, "delete_old_all": a,
                            "keep": k, "steps": [(rng.random() < pacc, rng.randrange(8), shape(),
-                                                 rng.randrange(50) if rng.random() < 0.25 else None) for _ in range(nsteps)],
+                                                 rng.randrange(50) if rng.random() < 0.25 else None,
+                                                 restart_here and rng.random() < 0.15) for _ in range(nsteps)],
                            "kind": "random"})
     return hs
 
@@ -662,6 +815,10 @@ def part_b(ctx, tmp, only=None):
         key = f"B:n={h['n_ens']},del={h['delete_old']},all={h['delete_old_all']},keep={'y' if h['keep'] else 'n'}"
         ctx.count(len(obs["states"]), branch=key)
         ctx.hit("B:histories")
+        if obs.get("restarts"):
+            ctx.hit("B:restarts-between-calls", obs["restarts"])
+        if obs.get("harness_error"):
+            ctx.extra.setdefault("harness_errors", []).append(obs["harness_error"])
         if obs.get("zero_swaps_n3"):
             ctx.hit("B:accepted-zero-swap-calls,2-interfaces,delete_old", obs["zero_swaps_n3"])
         if any(st_[0] for st_ in h["steps"]):
